@@ -4,7 +4,14 @@ C04: TLC (WireGen.tla) enumerates boundary values per (message, version) from sp
 canonical Kafka frame with Wire.tla; driver A (harness/wiredrv, built twice: default and -tags unsafe) runs
 protocol.WriteRequest/WriteResponse and ReadRequest/ReadResponse; TLC (WireCheck.tla) compares and names failing vectors.
 C20: TLC (WireFuzz.tla) enumerates (length field, value class) mutations of well-formed response frames; the driver
-runs protocol.ReadResponse on each in child processes; TLC judges every outcome line."""
+runs protocol.ReadResponse on each in child processes; TLC judges every outcome line.
+
+Violation keys (what known_findings.json `match` regexes see):
+  C04: "C04 api=<Api> kind=<request|response> clause=<failed clauses joined by +> field=<first differing field> cause=<diagnosis>
+        v=<versions, comma separated> builds=<default|unsafe|default+unsafe>"      (one per message and failure shape; field, cause and the
+        version list are diagnostics derived from the first failing vector, so they may vary with the seed: match loosely)
+  C20: "C20 kind=<fieldKind> class=<valueClass> outcome=<panic|fatal|hang|alloc> api=<Api> v=<n> field=<path>[ records=<v0|v1|v2>][ build=unsafe]"
+        (one per violating case)"""
 import concurrent.futures, glob, json, os, random, re, subprocess, shutil
 from vlib import Inconclusive, read_ndjson, write_ndjson, GOENV, SPEC
 
@@ -320,6 +327,8 @@ def run_c04(ctx):
             bad = [dd for dd in res["decs"] if not dd["ok"]]
             field = "decode-error" if bad else (next((diff_value(byname[msg]["fields"], v, vec["value"], dd["value"]) for dd in res["decs"]
                                                        if diff_value(byname[msg]["fields"], v, vec["value"], dd["value"])), None) or "-")
+        if len(bk) == 3 and cause == "empty-written-as-null":
+            cause = "go-nil-written-as-null"      # mode "nil": a nil slice given for a field that is not nullable at this version
         gk = (msg, tuple(sorted(e["clauses"])), field, tuple(sorted(e["builds"])), cause)
         merged.setdefault(gk, []).append((v, e))
     nviol = 0
@@ -369,30 +378,34 @@ def run_c04(ctx):
 QUICK_FUZZ = ["Metadata", "Fetch", "Produce", "ApiVersions", "JoinGroup"]
 
 
-def fuzz_shard(ctx, d, k, schemas_path, blobs_path, part, vh, par):
+def fuzz_shard(ctx, d, k, schemas_path, blobs_path, part, binaries, par):
+    """WireFuzzGen -> driver (child processes) per build -> WireFuzzCheck per build, for one shard of the base frames."""
     tp = os.path.join(d, "ftargets-%d.ndjson" % k)
     cp = os.path.join(d, "fcases-%d.ndjson" % k)
-    rp = os.path.join(d, "fresults-%d.ndjson" % k)
     write_ndjson(tp, part)
     g = ctx.tlc(ENGINE, "WireFuzzGen", "WireFuzzGen.cfg", workers=1, timeout=1500, tag="fgen%d" % k,
                 env={"SCHEMAS": schemas_path, "TARGETS": tp, "RECORDS": blobs_path, "OUT": cp, "JAVA_TOOL_OPTIONS": JOPTS})
     if g["error"] or g["timeout"] or g["violated"] or not os.path.exists(cp):
         raise Inconclusive("WireFuzzGen failed (shard %d): %s" % (k, (g["error"] or g["out"])[-1500:]))
-    p = subprocess.run([vh, "wire", "-mode", "fuzz", "-cases", cp, "-out", rp, "-par", str(par)], capture_output=True, text=True, timeout=3000)
-    if p.returncode != 0:
-        raise Inconclusive("fuzz driver failed on shard %d: %s" % (k, p.stderr[-1500:]))
-    c = ctx.tlc(ENGINE, "WireFuzzCheck", "WireFuzzCheck.cfg", workers=1, timeout=1500, tag="fchk%d" % k,
-                env={"CASES": cp, "RESULTS": rp, "JAVA_TOOL_OPTIONS": JOPTS})
-    m = re.search(r'<<"WIREFUZZCHECK", (\d+), (\d+), (\d+)>>', c["out"])
-    if c["timeout"] or not m or (c["error"] and not c["postcondition_failed"]):
-        raise Inconclusive("WireFuzzCheck failed (shard %d): %s" % (k, (c["error"] or c["out"])[-1500:]))
-    n, nviol, lenient = int(m.group(1)), int(m.group(2)), int(m.group(3))
-    flat = re.sub(r"\s+", " ", c["out"])
-    viol = {mm.group(1): mm.group(2) for mm in re.finditer(r'<< ?"FUZZVIOL", "([^"]+)", "([^"]+)" ?>>', flat)}
-    notes = [mm.group(1) for mm in re.finditer(r'<< ?"FUZZNOTE", "([^"]+)", "base-frame-rejected" ?>>', flat)]
-    if len(viol) != nviol or c["postcondition_failed"] != (nviol > 0):
-        raise Inconclusive("WireFuzzCheck output inconsistent on shard %d (%d FUZZVIOL lines, count %d)" % (k, len(viol), nviol))
-    return {"k": k, "n": n, "viol": viol, "lenient": lenient, "base_rejected": notes, "cases": cp, "results": rp, "gen": g, "chk": c}
+    out = {"k": k, "cases": cp, "gen": g, "builds": {}}
+    for label, binary in binaries:
+        rp = os.path.join(d, "fresults-%s-%d.ndjson" % (label, k))
+        p = subprocess.run([binary, "wire", "-mode", "fuzz", "-cases", cp, "-out", rp, "-par", str(par)], capture_output=True, text=True, timeout=3000)
+        if p.returncode != 0:
+            raise Inconclusive("fuzz driver (%s) failed on shard %d: %s" % (label, k, p.stderr[-1500:]))
+        c = ctx.tlc(ENGINE, "WireFuzzCheck", "WireFuzzCheck.cfg", workers=1, timeout=1500, tag="fchk%s%d" % (label, k),
+                    env={"CASES": cp, "RESULTS": rp, "JAVA_TOOL_OPTIONS": JOPTS})
+        m = re.search(r'<<"WIREFUZZCHECK", (\d+), (\d+), (\d+)>>', c["out"])
+        if c["timeout"] or not m or (c["error"] and not c["postcondition_failed"]):
+            raise Inconclusive("WireFuzzCheck failed (shard %d, %s): %s" % (k, label, (c["error"] or c["out"])[-1500:]))
+        n, nviol, lenient = int(m.group(1)), int(m.group(2)), int(m.group(3))
+        flat = re.sub(r"\s+", " ", c["out"])
+        viol = {mm.group(1): mm.group(2) for mm in re.finditer(r'<< ?"FUZZVIOL", "([^"]+)", "([^"]+)" ?>>', flat)}
+        notes = [mm.group(1) for mm in re.finditer(r'<< ?"FUZZNOTE", "([^"]+)", "base-frame-rejected" ?>>', flat)]
+        if len(viol) != nviol or c["postcondition_failed"] != (nviol > 0):
+            raise Inconclusive("WireFuzzCheck output inconsistent on shard %d (%d FUZZVIOL lines, count %d)" % (k, len(viol), nviol))
+        out["builds"][label] = {"n": n, "viol": viol, "lenient": lenient, "base_rejected": notes, "results": rp, "chk": c}
+    return out
 
 
 def run_c20(ctx):
@@ -425,40 +438,45 @@ def run_c20(ctx):
                 targets.append({"m": mi + 1, "v": v, "recs": b})
         else:
             targets.append({"m": mi + 1, "v": v, "recs": ""})
+    binaries = [("default", vh)] + ([("unsafe", build_unsafe(ctx))] if tier == "thorough" else [])
     nsh = 8
     jobs = [(k, targets[k::nsh]) for k in range(nsh) if targets[k::nsh]]
-    ctx.log("C20: %d base frames (response type x version [x record format]), %d shards" % (len(targets), len(jobs)))
+    ctx.log("C20: %d base frames (response type x version [x record format]), %d shards, builds %s" % (len(targets), len(jobs), [b[0] for b in binaries]))
     results = []
     with concurrent.futures.ThreadPoolExecutor(max_workers=nsh) as ex:
-        futs = [ex.submit(fuzz_shard, ctx, d, k, schemas_path, blobs_path, part, vh, 3) for (k, part) in jobs]
+        futs = [ex.submit(fuzz_shard, ctx, d, k, schemas_path, blobs_path, part, binaries, 3) for (k, part) in jobs]
         for f in futs:
             results.append(f.result())
-    total = sum(r["n"] for r in results)
+    total = sum(b["n"] for r in results for b in r["builds"].values())
     frames, base_frames = set(), set()
     outcomes = {}
     violating = []          # (key, case, result, verdict)
     kinds, classes = set(), set()
     for r in results:
         cases = read_ndjson(r["cases"])
-        res = read_ndjson(r["results"])
-        for c, x in zip(cases, res):
-            fr = bytes(c["frame"])
-            frames.add(fr)
-            if c["class"] == "exact":
-                base_frames.add(fr)
-            kinds.add(c["kind"])
-            classes.add(c["class"])
-            verdict = r["viol"].get(c["id"])
-            outcomes[(c["expect"], x["outcome"] if not verdict else verdict)] = outcomes.get((c["expect"], x["outcome"] if not verdict else verdict), 0) + 1
-            if verdict:
-                key = "C20 kind=%s class=%s outcome=%s api=%s v=%d field=%s" % (c["kind"], c["class"], verdict, c["api"], c["v"],
-                                                                               re.sub(r"\[\d+\]", "", c["path"]))
-                if c["recs"]:
-                    key += " records=%s" % c["recs"]
-                violating.append((key, c, x, verdict))
+        for label, b in r["builds"].items():
+            res = read_ndjson(b["results"])
+            for c, x in zip(cases, res):
+                fr = bytes(c["frame"])
+                frames.add(fr)
+                if c["class"] == "exact":
+                    base_frames.add(fr)
+                kinds.add(c["kind"])
+                classes.add(c["class"])
+                verdict = b["viol"].get(c["id"])
+                ok = (c["expect"], x["outcome"] if not verdict else verdict)
+                outcomes[ok] = outcomes.get(ok, 0) + 1
+                if verdict:
+                    key = "C20 kind=%s class=%s outcome=%s api=%s v=%d field=%s" % (c["kind"], c["class"], verdict, c["api"], c["v"],
+                                                                                   re.sub(r"\[\d+\]", "", c["path"]))
+                    if c["recs"]:
+                        key += " records=%s" % c["recs"]
+                    if label != "default":
+                        key += " build=%s" % label
+                    violating.append((key, c, x, verdict))
     nviol_total = len(violating)
     ctx.log("C20: %d cases judged by TLC, %d violate (panic/fatal/hang/alloc)" % (total, nviol_total))
-    base_rejected = [n for r in results for n in r["base_rejected"]]
+    base_rejected = [n for r in results for b in r["builds"].values() for n in b["base_rejected"]]
     if base_rejected:
         raise Inconclusive("the unmutated base frame was rejected by the decoder (class exact): %s" % base_rejected[:5])
     # one representative per (kind, class, outcome) first, so that the capped VIOLATION lines show every pattern
@@ -490,7 +508,7 @@ def run_c20(ctx):
         ctx.notes.append("%d violating cases are not covered by known findings; %d VIOLATION lines printed, %d more not printed" % (unknown, printed, unknown - printed))
     nontrivial = len(frames - base_frames)
     s0 = results[0]
-    c0, r0 = read_ndjson(s0["cases"]), read_ndjson(s0["results"])
+    c0, r0 = read_ndjson(s0["cases"]), read_ndjson(s0["builds"]["default"]["results"])
     samples = []
     for i in (0, len(c0) // 3, 2 * len(c0) // 3, len(c0) - 1):
         samples.append({"id": c0[i]["id"], "frameHex": hexs(c0[i]["frame"]), "put": c0[i]["put"], "model": c0[i]["expect"],
@@ -504,8 +522,9 @@ def run_c20(ctx):
             "violating_cases": nviol_total, "violating_not_known": unknown, "violation_lines_printed": printed,
             "violation_groups(kind_class_outcome)": dict(sorted(groups.items())),
             "model_vs_outcome": {"%s/%s" % k: v for k, v in sorted(outcomes.items())},
-            "lenient_decodes(model Error, decoder decoded)": sum(r["lenient"] for r in results),
-            "tlc_states": sum(r["chk"]["distinct"] for r in results), "uncovered": uncovered if tier != "quick" else "quick tier: " + ", ".join(QUICK_FUZZ) + " only",
+            "lenient_decodes(model Error, decoder decoded)": sum(b["lenient"] for r in results for b in r["builds"].values()),
+            "builds": [b[0] for b in binaries],
+            "tlc_states": sum(b["chk"]["distinct"] for r in results for b in r["builds"].values()), "uncovered": uncovered if tier != "quick" else "quick tier: " + ", ".join(QUICK_FUZZ) + " only",
             "alloc_bound": "64 * received + 512 KiB", "samples": samples}
 
 
